@@ -105,6 +105,7 @@ IndexSection(b) == IndexSectionO(b, [e |-> 0, off |-> U64Zero, len |-> U64Zero])
 Refused(b) == \/ IndexRefused(b)
               \/ \E i \in 1..Len(b.exs) : ~RespHdrOk(b.exs[i])
               \/ b.hasmanifest /\ b.ver # "b1"
+              \/ b.ver = "b1" /\ ~b.hasprimary          \* b1 carries the primary URL as a positional item of the top-level array
 Sections(b) == << [name |-> S_index, body |-> IndexSection(b)] >>
                \o (IF b.ver = "b2" /\ b.hasprimary THEN << [name |-> S_primary, body |-> EncText(b.primary)] >> ELSE <<>>)
                \o (IF b.hasmanifest THEN << [name |-> S_manifest, body |-> EncText(b.manifest)] >> ELSE <<>>)
